@@ -389,3 +389,99 @@ Section Complete.
         cbn. apply (edge_ready _ _ _ _ w e q rq HL Hst); [cbn; lia|exact G|exact He].
   Qed.
 End Complete.
+
+(* ------------------------------------------------------------------ completeness *)
+
+Lemma loop_total a b : Struct a -> Struct b -> Owned a -> Owned b -> RefOk b ->
+  forall post pre st t, diff a b = pre ++ post -> Struct st ->
+    (forall sl, look st sl = fold_wr pre (look a) sl) ->
+    exists s' t', apply_loop st t post = Ok (s', t').
+Proof.
+  intros Ha Hb Oa Ob Rb. induction post as [|o post IH]; intros pre st t HL HS Hst; cbn [apply_loop]; [eauto|].
+  destruct (op_applies a b Ha Hb Oa Ob Rb pre post o st HL HS Hst) as [st1 E1]. rewrite E1.
+  assert (Hside : port_side st o).
+  { destruct o; cbn; auto. destruct (diff_ports_fresh a b Ha Hb pre k child_warp child_root init post HL) as [Hi Hn].
+    split; [|exact Hi]. rewrite <- Hst in Hn. cbn in Hn. destruct (get_inst st child_warp); [discriminate|reflexivity]. }
+  pose proof (apply_op_effect st o st1 HS Hside E1) as Heff.
+  apply (IH (pre ++ [o]) st1).
+  - rewrite <- app_assoc. exact HL.
+  - eapply apply_op_Struct; eauto.
+  - intros sl. rewrite Heff, fold_wr_app. cbn [fold_wr]. unfold upd. rewrite Hst. reflexivity.
+Qed.
+
+Theorem diff_apply_complete_wf a b : WFs a -> WF b -> apply_ops (diff a b) a = Ok b.
+Proof.
+  intros Wa (Wb & Rb & Pb). apply WFs_split in Wa, Wb. destruct Wa as [Ha Oa], Wb as [Hb Ob].
+  destruct (loop_total a b Ha Hb Oa Ob Rb (diff a b) [] a false eq_refl Ha) as (s & t & Hloop); [reflexivity|].
+  assert (Hs : s = b).
+  { pose proof (apply_loop_Struct _ _ _ _ _ Ha Hloop) as HSs.
+    apply look_ext; [exact HSs|exact Hb|]. intros sl.
+    rewrite (apply_loop_effect _ _ _ _ _ Ha (diff_ports_fresh a b Ha Hb) Hloop sl).
+    apply fold_diff_is_after; assumption. }
+  subst s. unfold apply_ops. rewrite Hloop. destruct t; [|reflexivity].
+  unfold PI in Pb. rewrite Pb. reflexivity.
+Qed.
+
+Corollary diff_apply_tick_wf ops a b :
+  WFs a -> apply_ops ops a = Ok b -> WF b -> apply_ops (diff a b) a = Ok b.
+Proof. intros Wa _ Wb. apply diff_apply_complete_wf; assumption. Qed.
+
+(* a transition whose post state has a dangling edge (UpsertEdge does not check its endpoints) is
+   outside: its emitted patch need not apply *)
+Definition w4_ops : list op := [DeleteEdge 1 1 9; DeleteNode 1 3; UpsertEdge 1 9 1 3 8].
+Definition w4_after : state :=
+  mk_state [(1, mk_store [(1,7);(2,7)] [(9,(1,3,8))] [] [])] [(1,(1,None))].
+
+Lemma w4_facts :
+  wfb w2_before = true /\ apply_ops (patch_new w4_ops) w2_before = Ok w4_after /\
+  wfsb w4_after = true /\ refb w4_after = false /\
+  apply_ops (diff w2_before w4_after) w2_before = Err (NodeNotIsolated 1 3).
+Proof. repeat split; vm_compute; reflexivity. Qed.
+
+(* ------------------------------------------------------------------ the boolean checker is sound *)
+
+Lemma nmem_keys {V1 V2} (m1 : list (N * V1)) (m2 : list (N * V2)) w :
+  map fst m1 = map fst m2 -> nmem w m1 = nmem w m2.
+Proof.
+  revert m2; induction m1 as [|[k v] m1 IH]; destruct m2 as [|[k' v'] m2]; cbn; intros E; try discriminate; auto.
+  inversion E; subst. unfold mem in *. cbn. destruct (w ?= k'); auto.
+Qed.
+
+Lemma store_wfb_sound s : store_wfb s = true -> store_sorted s /\ store_owned s.
+Proof.
+  unfold store_wfb, sortedN. rewrite !andb_true_iff. intros [[[[[A B] C] D] E] F].
+  apply sortedb_spec in A, B, C, D. rewrite forallb_forall in E, F. split; [repeat split; assumption|]. split.
+  - intros n H. apply nmem_true in H. destruct H as [v H]. apply nf_in in H. apply (E _ H).
+  - intros e H. apply nmem_true in H. destruct H as [v H]. apply nf_in in H. apply (F _ H).
+Qed.
+
+Lemma wfsb_sound st : wfsb st = true -> WFs st.
+Proof.
+  unfold wfsb, sortedN. rewrite !andb_true_iff. intros [[[A B] C] D].
+  apply sortedb_spec in A, B. apply list_eqb_spec in C. rewrite forallb_forall in D.
+  split; [exact A|]. split; [exact B|]. split.
+  - intros w. apply nmem_keys, C.
+  - intros w s G. apply nf_in in G. apply store_wfb_sound. apply (D _ G).
+Qed.
+
+Lemma refb_sound st : refb st = true -> RefOk st.
+Proof.
+  unfold refb. rewrite forallb_forall. intros H w s G e r He. apply nf_in in G, He.
+  specialize (H _ G). cbn in H. unfold store_refb in H. rewrite forallb_forall in H.
+  specialize (H _ He). cbn in H. apply andb_true_iff in H. exact H.
+Qed.
+
+Lemma pib_sound st : pib st = true -> PI st.
+Proof. unfold pib, PI. destruct (validate_portal_invariants st) as [[]|]; [reflexivity|discriminate]. Qed.
+
+Lemma wfb_sound st : wfb st = true -> WF st.
+Proof.
+  unfold wfb. rewrite !andb_true_iff. intros [[A B] C].
+  split; [apply wfsb_sound, A|]. split; [apply refb_sound, B|apply pib_sound, C].
+Qed.
+
+Lemma WF_WFs st : WF st -> WFs st.
+Proof. intros [H _]; exact H. Qed.
+
+Lemma WFs_Struct st : WFs st -> Struct st.
+Proof. intros H. apply WFs_split in H. exact (proj1 H). Qed.
